@@ -64,6 +64,10 @@ EvMism(e) ==
   \* IPv4 analogue
   \cup WalkMism(v4w, e.v4.next, "v4.next_header")
   \cup WalkMism(v4w, e.v4.write, "write")
+  \cup WalkMism(v4w, e.v4.iph_next, "v4.iph_next")
+  \cup WalkMism(v4w, e.v4.iph_write, "iph_write")
+  \cup (IF v4w.status = "ok" /\ e.v4.iph_write.k = "ok" /\ e.v4.iph_write.n # 20 + (IF c.auth = -1 THEN 0 ELSE 16) THEN {"v4.iph_write.len"} ELSE {})
+  \cup (IF e.v4.iph_len # 20 + (IF c.auth = -1 THEN 0 ELSE 16) THEN {"v4.iph_len"} ELSE {})
   \cup (IF v4w.status = "ok" /\ e.v4.write.k = "ok" /\ e.v4.write.n # (IF c.auth = -1 THEN 0 ELSE 16) THEN {"v4.write.len"} ELSE {})
   \cup (IF e.v4.len # (IF c.auth = -1 THEN 0 ELSE 16) THEN {"v4.header_len"} ELSE {})
   \cup (IF e.v4.set_et # ET_IPV4 \/ e.v4.net_et # ET_IPV4 THEN {"v4.set.ether_type"} ELSE {})
